@@ -1,7 +1,7 @@
 CHECKS = [
     entry("C02", "collector",
           technique="property-based testing (rapid): generated schedules on the real collector in a synctest bubble; exactly-once / never ledger over span uids and bounded eventual decision",
-          quick=dict(checks=400, budget_s=50),
+          quick=dict(checks=700, budget_s=70),
           thorough=dict(checks=8000, shards=16, budget_s=540),
           level_text="Same generated schedules as C01 judged as a ledger: every accepted span uid is forwarded exactly once iff its trace was kept, never otherwise, nothing invented, and every trace is decided exactly once by a bounded horizon. Exploration.",
           level_note="'Eventually' is checked in bounded form (drain horizon). Decisions are read from the worker's decision cache through a verif-tagged accessor; transmission is a recording double."),
